@@ -39,6 +39,30 @@ def _run_one_stream(prop, s, binaries, seed, n, tag, ops_file=None, race=False):
     return res
 
 
+def _replay_ops(prop, s, replay):
+    """A replay is either a plain ops file (used as is for every stream) or a replays/*.json written
+    by a failed run: then the op histories of its failing entries for this stream's component are
+    written to an ops file (None if there are none)."""
+    if not replay.endswith(".json"):
+        return replay
+    try:
+        data = json.load(open(replay))
+    except Exception:  # noqa
+        return replay
+    ops = []
+    for f in data.get("failing", []):
+        if f.get("component") != s["component"]:
+            continue
+        ops += f.get("ops") or [f.get("op", "")]
+    if not ops:
+        return None
+    path = os.path.join(C.BUILD, "runs", prop, "replay-%s.ops" % s["component"])
+    os.makedirs(os.path.dirname(path), exist_ok=True)
+    with open(path, "w") as fh:
+        fh.write("\n".join(o for o in ops if o) + "\n")
+    return path
+
+
 def check(prop, cfg, tier, seed, replay=None):
     t0 = time.time()
     tie_broken = []      # what no longer checks (proof obligation / correspondence)
@@ -105,16 +129,21 @@ def check(prop, cfg, tier, seed, replay=None):
     for s in cfg.get("streams", []):
         if s.get("kind", "bin") == "bin" and (s["mod"], False) not in binaries:
             continue
+        if s.get("seed_add") and (replay or s["n"].get(tier, 0) == 0):
+            continue  # additional seed chunk of a stream: not part of this tier / not needed for a replay
         runs = []
         if replay:
-            runs.append(("replay", replay, 0))
+            rp = _replay_ops(prop, s, replay)
+            if rp is None:
+                continue  # the replay file holds nothing for this stream
+            runs.append(("replay", rp, 0))
         else:
             corp = os.path.join(C.VERIF, "corpus", cfg.get("corpus_from", {}).get(s["component"], prop), s["component"] + ".ops")
             if os.path.exists(corp):
                 runs.append(("corpus", corp, 0))
             runs.append(("gen", None, s["n"][tier]))
         for tag, ops_file, n in runs:
-            r = _run_one_stream(prop, s, binaries, seed, n, tag, ops_file=ops_file,
+            r = _run_one_stream(prop, s, binaries, seed + s.get("seed_add", 0), n, tag, ops_file=ops_file,
                                 race=(tier == "thorough" and cfg.get("race", False)))
             r["tag"] = tag
             streams_out.append(r)
@@ -249,6 +278,8 @@ def search(prop, cfg, binaries, seed, known, budget_s):
             if s.get("kind", "bin") == "bin" and (s["mod"], False) not in binaries:
                 continue
             n = s["n"]["quick"] * 2
+            if n == 0:
+                continue
             try:
                 r = _run_one_stream(prop, s, binaries, seed * 1000003 + k, n, "search%d" % k)
             except Exception:  # noqa
